@@ -33,6 +33,12 @@ CHECKS = {
     "C16": dict(level="model_checking", ref="5 (C16), 4.3",
                 technique="TLC model checking of TheoSem.tla under weak fairness (<>Done, LoopCount, DepthBound, CallsGoDown) on generated WHILE/GOTO-free ASTs + trace validation of the real runs of the same sources; depth bound on every real run",
                 text="Accept side: TheoSem's termination, loop-count and depth invariants are model-checked on the ASTs of generated LOOP-only sources (bodies assign to their bounds, nested loops sharing lines, loops from macro bodies); the real compiler+VM must then produce exactly the reference line events and halt (TheoSemTrace), and the activation depth of every real run is bounded by definitions+1. Reject side (self/forward/mutual references across files and redefinitions) is exercised through C04's static-rule skeletons once TheoParse is in place; until then only the accept side is claimed here."),
+    "C08": dict(level="model_checking", ref="5 (C08), 4.1",
+                technique="TLC evaluation of TablesOK / LocsRealInv (TheoVM.tla, TheoVMAbs.tla) on the real tables of adversarial and generated layouts + I->S validation of debugger histories (StopExact, BrkSync)",
+                text="For every accepted source of a layout corpus (hand-designed patterns: headers re-entering a line that owns a site, END supplied by an included file, several headers on one line, macro bodies in other files, labels alone on a line; generated free/dense/sparse layouts with includes at token boundaries) TLC evaluates on the tables the real compiler emitted: the two tables are exact inverses, listed sites are exactly the break instructions, no location in the hidden file, every location is a line carrying program text. Debugger histories on a sample are validated with StopExact and BrkSync, which ties 'can be enabled' to 'stepping can report it'."),
+    "C20": dict(level="model_checking", ref="5 (C20), 4.1",
+                technique="I->S trace validation of boundary programs run instruction by instruction on the UBSan/ASan build (TheoVMTrace.tla with overflow values bound, WordsInRange) + S->I replay of TheoWord.tla literal-range cases into the compiler",
+                text="Boundary programs (largest literal, x+c with c up to 2^31-2, sums through calls and loops, counters at zero) are executed one instruction at a time on the sanitizer build; each event binds every word of every frame: in-range additions must be exact, an overflowing addition may store any value in 0..2^31-1 but the same one for the same operands, subtraction truncates at 0, WordsInRange holds in every state and a UBSan report is an abort with no explaining action. The literal rule (digit-string order, any length) is enumerated by TLC over 16 literals x 11 positions (assignments, IF comparands, call arguments, +/- sugar, macro INT slots and bodies, priorities, insertion indices) and replayed into the real compiler (verdict and presence of a range error)."),
 }
 
 NOT_YET = "check not built yet in this session (construction order in DESIGN.md section 10); will be claimed when its check exists"
